@@ -20,6 +20,9 @@ def family():
     for label, prog, meta in F.fam_cond_aux_two():
         if core.TIER != "quick" or ("dx0-dy0" in label or "dx0-dy1" in label) and label.split("/")[1] in ("repeat1-never", "repeat1-repeat1", "now-never", "now-repeat1"):
             yield label, prog, dict(parents=None)
+    for label, prog, meta in F.fam_restart():
+        if "condaux" in label:
+            yield label, prog, dict(parents=None)
     if core.TIER == "quick":
         yield from F.fam_forest(2, pairs=True)
         yield from F.fam_forest(3, pairs=False, aux_kinds=("repeat1", "never"))
